@@ -16,7 +16,17 @@ def main():
     try:
         if prop in TEMPLATE_PROPS:
             from checks import tmpl_props
-            if replay: return tmpl_props.replay(prop, replay)
+            if replay:
+                import json
+                if prop == 'C08' and json.load(open(replay)).get('level') == 'unit':
+                    from checks import c13
+                    return c13.replay(replay)
+                return tmpl_props.replay(prop, replay)
+            if prop == 'C08':
+                # "canonicalising an invocation twice equals canonicalising it once", union-find entries consistent: the one-step obligations on
+                # find_applied_id from arbitrary union-find states (shared with C13) belong to this property as well
+                from checks import c13
+                return tmpl_props.run(prop, tier, seed, c13.unit(tier, prop))
             return tmpl_props.run(prop, tier, seed)
         mod = __import__('checks.' + prop.lower(), fromlist=['run'])
         if replay: return mod.replay(replay)
